@@ -11,7 +11,8 @@
   specifications of `max` / `threshold` proved here.
 -/
 import LMV.Lemmas.ScanAbstract
--- import LMV.Lemmas.ScanKernels
+import LMV.Lemmas.ScanKernels
+import LMV.Props.C08
 
 namespace LMV
 namespace C02
@@ -225,6 +226,106 @@ theorem collect_spec {k : Kernels α C} {R nPos : Nat} {score : Nat → α}
     omega
   obtain ⟨hs, hc, hp⟩ := collect_from spec t block hb fuel State.init hlen
   exact ⟨hs, hc, by rw [← remaining_init spec]; exact hp⟩
+
+/-! ### Part 2: the kernels of the real scanner satisfy the specification -/
+
+section concrete
+open Striped
+variable {K : Nat}
+
+/-- the exact score of position `i`: `Σⱼ pssm[j][s⟦i+j⟧]` in the order of `score_position` -/
+def scoreAt (p : Mat ERat K) (s : List Nat) (i : Nat) : ERat := scoreFn p (C08.window (K - 1) s i)
+
+/-- the kernels of a `Scanner` built on a matrix with finite non-wildcard entries (wildcard column
+    `−∞` or finite) and a striped sequence with at least `M − 1` wrap rows satisfy `KernelSpec`, for
+    every dispatcher arm and both build profiles -/
+theorem kernels_spec (arm : Arm) (overflowChecks : Bool) {p : Mat ERat K} {x : ℕ → ℕ → ℚ}
+    (hfin : C08.FiniteEntries p x) (hK : 2 ≤ K) {dm : Discrete ERat K}
+    (hdm : toDiscrete p = .ok dm) (hf : 0 < C08.facQ K x p.rows) (hC : 0 < C)
+    (st : Striped C) (s : List Nat) (hinv : C04.Inv (K - 1) st s) (hs : ∀ a ∈ s, a < K)
+    (hM : 1 ≤ p.rows) (hwrap : p.rows - 1 ≤ st.wrap) :
+    KernelSpec (kernels p dm st arm (accOf overflowChecks)) (C04.seqRowsOf C s.length)
+      (s.length + 1 - p.rows) (scoreAt p s) := by
+  obtain ⟨dm', hdm', hoff, hfac, hrows, -⟩ := C08.toDiscrete_closed hfin hK
+  rw [hdm] at hdm'; cases hdm'
+  have hge := C04.seqRowsOf_mul_ge hC s.length
+  refine
+    { hC := hC
+      seqRows := by simp only [kernels]; rw [hinv.rows]; omega
+      fits := by rw [Nat.mul_comm]; omega
+      scoreRows := ?_
+      scoreRowsShort := ?_
+      max_none := fun ds => maxDispatch_none arm ds
+      max_ge := fun ds m hm => maxDispatch_ge arm ds m hm
+      thr_nodup := fun ds t8 => threshold_nodup ds t8
+      thr_mem := fun ds t8 r c => threshold_mem ds t8 r c
+      scorePosition := ?_
+      scale_mono := ?_ }
+  · intro hpos lo hi hlo hhi
+    obtain ⟨sc, hsc, hr, hmi, hcell⟩ := C08.backend_never_underestimates arm overflowChecks hfin hK
+      hdm hf st s hinv hs hM hwrap (by omega) lo hi hlo hhi
+    exact ⟨sc, hsc, hmi, hr, fun r c hr' hc _ => hcell r c hr' hc⟩
+  · intro hz lo hi
+    have hshort : st.length < dm.data.rows := by rw [hrows, hinv.len]; omega
+    refine ⟨Scores.empty, ?_, by simp [Scores.empty]⟩
+    simp only [kernels]
+    cases arm with
+    | avx2 =>
+      exact C08.scoreRowsAvx2_empty dm.data st lo hi (by omega) (by omega) (Or.inl hshort)
+    | generic => exact C08.scoreRowsGeneric_empty _ dm.data st lo hi (Or.inl hshort)
+    | sse2 => exact C08.scoreRowsGeneric_empty _ dm.data st lo hi (Or.inl hshort)
+  · intro i hi
+    exact C08.scorePosition_eq hC p hinv i (by omega)
+  · intro a b hab
+    exact C08.scale_mono hoff hfac hf hab
+
+/-- **C02.**  Exact arithmetic; any alphabet size `K ≥ 2`, any column count `C ≥ 1`.  For every
+    scoring matrix with finite non-wildcard entries (wildcard column `−∞` or finite) and
+    `factor > 0`, every sequence `s` of symbols, every striped sequence satisfying the invariant of
+    C04 for `s` with at least `M − 1` wrap rows (what `configure` establishes), every threshold,
+    every block size `≥ 1`, every dispatcher arm and both build profiles: `Scanner::new` does not
+    panic, iterating it to exhaustion does not panic, and the hits yielded are a permutation of
+    `[(i, score i) | i + M ≤ L, score i ≥ t]`.  Covers `L < M`, `L = 0`, every alignment of the
+    block boundaries with the sequence rows and wrap rows, thresholds at or below the minimum. -/
+theorem scanner_yields_exactly (arm : Arm) (overflowChecks : Bool) {p : Mat ERat K} {x : ℕ → ℕ → ℚ}
+    (hfin : C08.FiniteEntries p x) (hK : 2 ≤ K) (hf : 0 < C08.facQ K x p.rows) (hC : 0 < C)
+    (st : Striped C) (s : List Nat) (hinv : C04.Inv (K - 1) st s) (hs : ∀ a ∈ s, a < K)
+    (hM : 1 ≤ p.rows) (hwrap : p.rows - 1 ≤ st.wrap) (t : ERat) (block : Nat) (hb : 1 ≤ block)
+    (fuel : Nat) (hfuel : s.length + 1 - p.rows < fuel) :
+    ∃ dm, toDiscrete p = .ok dm ∧
+      ∃ hs, collect (kernels p dm st arm (accOf overflowChecks)) t block fuel State.init = .ok hs ∧
+        hs.Perm ((allQual (scoreAt p s) t (s.length + 1 - p.rows)).map (mkHit (scoreAt p s))) := by
+  obtain ⟨dm, hdm, -⟩ := C08.toDiscrete_closed hfin hK
+  exact ⟨dm, hdm, collect_spec
+    (kernels_spec arm overflowChecks hfin hK hdm hf hC st s hinv hs hM hwrap) t block hb fuel hfuel⟩
+
+/-! non-vacuity: the 2-column motif of C08 (`C C`), the sequence `C C A C C T C` striped in 2
+    columns with one wrap row — 4 sequence rows, so block sizes 1 and 3 cut it in 4 and 2 blocks -/
+
+def sx : List Nat := [1, 1, 0, 1, 1, 2, 1]
+def stx : Striped 2 := (stripeGeneric 4 sx Striped.empty).configureWrap 4 1
+
+/-- the hypotheses of `scanner_yields_exactly` hold for it -/
+example : C04.Inv 4 stx sx ∧ (∀ a ∈ sx, a < 5) ∧ 1 ≤ C08.pex.rows ∧ C08.pex.rows - 1 ≤ stx.wrap :=
+  ⟨C04.configureWrap_inv (by decide) 4 sx _ 1 (C04.stripeGeneric_inv (by decide) 4 sx _),
+   by decide, by simp [C08.pex], by simp [C08.pex, stx, C04.configureWrap_wrap]⟩
+
+/-- positions yielded by the model, in the order of emission -/
+def runx (t : ERat) (block : Nat) : Option (List Nat) :=
+  match toDiscrete C08.pex with
+  | .ok dm =>
+    match collect (kernels C08.pex dm stx .generic .saturating) t block 10 State.init with
+    | .ok hs => some (hs.map (·.position))
+    | .error _ => none
+  | .error _ => none
+
+/-- threshold 2 = the maximum: the two occurrences of `C C`; threshold 1: every position (6 of
+    them), in an order that depends on the block size -/
+example : runx (.fin 2) 1 = some [0, 3] := by decide +kernel
+example : runx (.fin 1) 1 = some [4, 0, 5, 1, 2, 3] := by decide +kernel
+example : runx (.fin 1) 3 = some [2, 5, 1, 4, 0, 3] := by decide +kernel
+
+end concrete
 
 end C02
 end LMV
